@@ -116,6 +116,112 @@ func workerC08(r *vk.Run, w, n int, args []string) {
 	for i := 0; i < per; i++ {
 		sessionC08(r, rng, bin, w, i)
 	}
+	hs := 1
+	if !r.Quick() {
+		hs = 10
+	}
+	for i := 0; i < hs; i++ {
+		headerReloadSession(r, rng, w, i)
+	}
+}
+
+// headerReloadSession: --header-lines with bursts of reloads and edits consumed back to back, the
+// header event delayed by a failpoint: the reader (diverting header lines) and the coordinator
+// (handling the reload and pending read events in one batch) meet; afterwards the list must be the
+// reloaded input minus its header lines - and loading must finish at all.
+func headerReloadSession(r *vk.Run, rng *rand.Rand, wkr, idx int) {
+	in := filepath.Join(vk.Scratch(), fmt.Sprintf("c08-hdr-%d-%d-%d", os.Getpid(), wkr, idx))
+	lines := genInput(rng, 300, "H")
+	os.WriteFile(in, []byte(joinLines(lines)), 0o644)
+	defer os.Remove(in)
+	hn := 1 + rng.Intn(3)
+	fzfArgs := []string{fmt.Sprintf("--header-lines=%d", hn)}
+	s, err := tty.Start(tty.StartOpts{Args: fzfArgs, InputCmd: "cat " + shq(in), Cols: 80, Rows: 24, Points: "core.header=sleep(20)", Seed: r.Seed})
+	if err != nil {
+		r.Inconclusive("start: " + err.Error())
+		if s != nil {
+			s.Close()
+		}
+		return
+	}
+	defer s.Close()
+	r.Count("sessions", 1)
+	query := ""
+	var hist []string
+	for round := 0; round < 40; round++ {
+		posts := []string{"execute-silent(sleep 0.05)", "reload(cat " + shq(in) + ")"}
+		for k := 0; k < rng.Intn(3); k++ {
+			a := []string{"put(1)", "backward-delete-char", "toggle-sort", "reload(cat " + shq(in) + ")"}[rng.Intn(4)]
+			switch a {
+			case "put(1)":
+				query += "1"
+			case "backward-delete-char":
+				if query != "" {
+					query = query[:len(query)-1]
+				}
+			}
+			posts = append(posts, a)
+		}
+		for _, p := range posts {
+			if code, err := s.Post(p); err != nil || code != 200 {
+				r.Inconclusive(fmt.Sprintf("POST %q: %v %d", p, err, code))
+				return
+			}
+			hist = append(hist, p)
+		}
+		st, ok := s.WaitQuiescent(30 * time.Second)
+		if !ok {
+			if _, exited := s.ExitCode(); exited {
+				r.Violate(vk.Violation{Summary: "C08: fzf exited during the session: " + s.Stderr(), Witness: map[string]any{"history": hist}})
+				return
+			}
+			fz := s.FzfPid()
+			alive := 0
+			for _, p := range s.SessionProcs() {
+				if p.PPid == fz && !strings.Contains(p.Cmd, "<zombie>") {
+					alive++
+				}
+			}
+			lastWait := s.LastWait
+			s.Signal(syscall.SIGQUIT)
+			s.WaitExit(3 * time.Second)
+			dump := s.Stderr()
+			if alive == 0 && strings.Contains(lastWait, "reader settled=false") {
+				key := ""
+				if strings.Contains(dump, "(*ChunkList).Snapshot") && strings.Contains(dump, "(*EventBox).Set") && strings.Contains(dump, "sync.Mutex.Lock") {
+					key = "F34-header-event-under-chunklist-lock"
+				}
+				r.Violate(vk.Violation{Key: key, Summary: fmt.Sprintf("C08: --header-lines=%d, reload burst %v: every command fzf started has exited but loading never finishes (%s)", hn, tailS(hist, 4), lastWait),
+					Witness: map[string]any{"fzf_args": fzfArgs, "history_tail": tailS(hist, 12), "goroutine_dump": clipDump(dump)}})
+				return
+			}
+			r.Inconclusive("header/reload session: no quiescence: " + lastWait)
+			return
+		}
+		r.Eval(1)
+		r.Count("quiescent_comparisons", 1)
+		want := 0
+		for _, l := range lines[hn:] {
+			if query == "" || strings.Contains(l, query) {
+				want++
+			}
+		}
+		// (the query is made of the digit 1 only: a fuzzy match of "11" needs two ones anywhere)
+		if query != "" {
+			want = 0
+			for _, l := range lines[hn:] {
+				if strings.Count(l, "1") >= len(query) {
+					want++
+				}
+			}
+		}
+		if st.Query != query || st.TotalCount != len(lines)-hn || st.MatchCount != want {
+			r.Violate(vk.Violation{Summary: fmt.Sprintf("C08: --header-lines=%d after reload bursts: query %q total %d matches %d, expected query %q total %d matches %d", hn, st.Query, st.TotalCount, st.MatchCount, query, len(lines)-hn, want),
+				Witness: map[string]any{"fzf_args": fzfArgs, "history_tail": tailS(hist, 12)}})
+			return
+		}
+	}
+	r.Distinct(fmt.Sprintf("header-reload hn%d", hn))
 }
 
 func sessionC08(r *vk.Run, rng *rand.Rand, bin string, wkr, idx int) {
@@ -153,7 +259,7 @@ func sessionC08(r *vk.Run, rng *rand.Rand, bin string, wkr, idx int) {
 	if wd.header > 0 {
 		wd.lines = wd.lines[wd.header:]
 	}
-	points := []string{"", "", "scan.chunk=20.0%:sleep(2)", "matcher.publish=sleep(15)", "term.loop_end=sleep(10)", "matcher.request=sleep(10),scan.chunk=10.0%:sleep(3)"}[rng.Intn(6)]
+	points := []string{"", "", "scan.chunk=20.0%:sleep(2)", "matcher.publish=sleep(15)", "term.loop_end=sleep(10)", "matcher.request=sleep(10),scan.chunk=10.0%:sleep(3)", "core.header=sleep(15)"}[rng.Intn(7)]
 	slow := rng.Intn(4) == 0 && size <= 5000
 	o := tty.StartOpts{Args: fzfArgs, Cols: 100, Rows: 30, Points: points, Seed: r.Seed}
 	scr := vk.Scratch()
@@ -281,12 +387,44 @@ func sessionC08(r *vk.Run, rng *rand.Rand, bin string, wkr, idx int) {
 			if _, exited := s.ExitCode(); exited {
 				r.Violate(vk.Violation{Summary: "C08: fzf exited during the session: " + s.Stderr(), Witness: map[string]any{"history": hist, "stderr": s.Stderr()}})
 			} else {
-				r.Inconclusive(fmt.Sprintf("no quiescence within the watchdog after %q: %s (trace tail: %s)", hist[len(hist)-1].Post, s.LastWait, traceTail(s)))
-				// keep a goroutine dump of the stuck process for the evidence
+				lastWait := s.LastWait
+				// loading that never finishes although the producer is gone: every command fzf started has
+				// exited (twice, a second apart) and for the whole watchdog nothing but the spinner was drawn
+				gone := func() bool {
+					fz := s.FzfPid()
+					for _, p := range s.SessionProcs() {
+						if p.PPid == fz && !strings.Contains(p.Cmd, "<zombie>") {
+							return false
+						}
+					}
+					return fz != 0
+				}
+				wedged := strings.Contains(lastWait, "reader settled=false") && gone()
+				if wedged {
+					n1 := len(s.Trace())
+					time.Sleep(time.Second)
+					wedged = gone()
+					for _, e := range s.Trace()[n1:] {
+						if e.Kind != "term.render" {
+							wedged = false
+						}
+					}
+				}
 				procs := fmt.Sprintf("%+v", s.SessionProcs())
 				s.Signal(syscall.SIGQUIT)
 				s.WaitExit(3 * time.Second)
-				r.Extra("stuck_session", map[string]any{"history": hist, "fzf_args": fzfArgs, "failpoints": points, "trace": traceLines(s, 200), "processes": procs, "goroutine_dump": clipDump(s.Stderr())})
+				stuck := map[string]any{"history": hist, "fzf_args": fzfArgs, "failpoints": points, "trace": traceLines(s, 200), "processes": procs, "goroutine_dump": clipDump(s.Stderr())}
+				if wedged {
+					key := ""
+					if d := s.Stderr(); strings.Contains(d, "(*ChunkList).Snapshot") && strings.Contains(d, "(*EventBox).Set") && strings.Contains(d, "sync.Mutex.Lock") {
+						key = "F34-header-event-under-chunklist-lock"
+					}
+					r.Violate(vk.Violation{Key: key, Summary: fmt.Sprintf("C08: the input ended (every command fzf started has exited) but loading never finishes: 45 s after %q the interface still waits for its reader (%s)", hist[len(hist)-1].Post, lastWait), Witness: stuck})
+					return
+				}
+				r.Inconclusive(fmt.Sprintf("no quiescence within the watchdog after %q: %s (trace tail: %s)", hist[len(hist)-1].Post, lastWait, traceTail(s)))
+				// keep a goroutine dump of the stuck process for the evidence
+				r.Extra("stuck_session", stuck)
 			}
 			return
 		}
